@@ -98,10 +98,11 @@ def cut_loop(eng, node, st, k, ctx, n, lc, guard_fn, pre_body, post_body, index_
         cur = st.env.get(nm)
         if cur is not None and cur.s[0] == "list" and cur.s[1] == ("unk",):
             st.env[nm] = V(srt, cur.t)      # empty literal list: element sort declared by the loop contract
-    check_invs(eng, st, lc, n, "inv-entry", node, index_extra(st))
+    outer_entry = st.loop_entry
     entry = st.fork()
-    entry.loop_entry = None
+    entry.loop_entry = outer_entry
     st.loop_entry = entry
+    check_invs(eng, st, lc, n, "inv-entry", node, index_extra(st))
     body_names = assigned_names(node.body)
     for nm, srt in lc.get("locals", {}).items():
         cur = st.env.get(nm)
@@ -121,10 +122,9 @@ def cut_loop(eng, node, st, k, ctx, n, lc, guard_fn, pre_body, post_body, index_
             if nm in modset:
                 continue
             old = st.heap.arrs[nm]
-            new = fresh("lp!" + nm, old.sort())
+            junk = fresh("lp!" + nm, old.sort())
             o = z3.Int(f"o!{next(_fresh)}")
-            st.assume(z3.ForAll([o], z3.Implies(o <= alloc0, z3.Select(new, o) == z3.Select(old, o))))
-            st.heap.arrs[nm] = new
+            st.heap.arrs[nm] = z3.Lambda([o], z3.If(o <= alloc0, z3.Select(old, o), z3.Select(junk, o)))
         na = fresh("alloc", z3.IntSort())
         st.assume(na >= alloc0)
         st.heap.alloc = na
